@@ -644,6 +644,15 @@ def gen_cases(ctx):
         {"cub": 1, "clb": 0.0, "m": 2, "data": [[1.0, 1.0], [1.0, 1.0], [1.0, 2.0]]},  # unique <= cub ... duplicates
         {"cub": 5, "clb": 0.25, "m": 3, "data": [[1.0, 2.0, 3.0]]},                    # single point
     ]
+    # a large test batch (more rows than any internal block size an implementation might use): overwrite-fill
+    # after an earlier fill under the same id, and a fill under a fresh id
+    big_build = gen_points(rng, "cont", 60, 2)
+    big_small = gen_points(rng, "cont", 150, 2)
+    big_large = gen_points(rng, "cont", 4500 if not ctx.thorough else 9000, 2)
+    hand.append({"cub": 5, "clb": 0.01, "m": 2, "data": big_build,
+                 "ops": [{"k": "fill", "data": big_small, "id": 1, "reset": False},
+                         {"k": "fill", "data": big_large, "id": 1, "reset": True},
+                         {"k": "fill", "data": big_large, "id": 2, "reset": False}]})
     for h in hand:
         h = dict(h, kind="hand")
         cases.append(h)
